@@ -77,6 +77,24 @@ void buildSeeds(bool thorough)
 				gConstructed[0].push_back(m);
 			}
 		}
+	// bitmap headers whose size cross-check holds modulo 2^32 (but not in 64 bits): pitch = 2^p, height = 2^(32-p) + j
+	for (int d : { 1, 4, 8 }) for (int64_t w : { int64_t(1), int64_t(8), int64_t(32), int64_t(64), int64_t(256), int64_t(65536), int64_t(1) << 20, int64_t(1) << 28 }) {
+		uint64_t pitch = ((uint64_t(w) * uint64_t(d) + 7) / 8 + 3) & ~uint64_t(3);
+		if (pitch & (pitch - 1)) continue;
+		int p = 0; while ((uint64_t(1) << p) < pitch) ++p;
+		for (int64_t j : { int64_t(0), int64_t(1), int64_t(2), int64_t(32) }) for (int sign = 0; sign < 2; ++sign) {
+			int64_t h = (int64_t(1) << (32 - p)) + j; if (h > INT32_MAX) continue; if (sign) h = -h;
+			uint64_t s32 = uint64_t(j) * pitch;      // (pitch * |h|) mod 2^32
+			if (s32 > 4096) continue;
+			ref::RBmp b; b.depth = d; b.width = int32_t(w); b.height = int32_t(h);
+			for (int i = 0; i < (1 << d); ++i) b.palette.push_back({ uint8_t(i), 1, 2, 3 });
+			b.rows.assign(std::size_t(s32), 0x5A);
+			mc::Mutant m; m.bytes = ref::encodeBmp(b);
+			m.desc = "constructed bmp depth " + std::to_string(d) + " width " + std::to_string(w) + " height " + std::to_string(h) + " pixel bytes " + std::to_string(s32) + " (pitch*|height| mod 2^32; the true product is " + std::to_string(pitch * uint64_t(h < 0 ? -h : h)) + ")";
+			gConstructed[0].push_back(m);
+			if (d == 8 && w == 32) gConstructed[1].push_back(m);     // also through the tileset loader (32 wide, 8 bit, height multiple of 32 for j = 0, 32)
+		}
+	}
 	{
 		// tileset heights >= 2^31 and other extremes in the custom header
 		ref::RPicture p; p.height = 0; for (int i = 0; i < 256; ++i) p.palette.push_back({ 1, 2, 3, 4 });
